@@ -127,7 +127,7 @@ def build(case):
                 cookie.set_expires(int(state['now'] + op[1]))       # the public JSONCookie API (examples/basic.py logout idiom)
             elif op[0] == 'expire_abs':
                 cookie.set_expires(op[1])                           # an absolute time, the epoch itself included
-        return Response(json.dumps(given, sort_keys=True), mimetype='application/json')
+        return Response(json.dumps(given, sort_keys=True), mimetype='application/json', status=state.get('status') or 200)
     mw = SignedCookieMiddleware(arg_name=arg, cookie_name=case['cookie_name'], secret_key=secret_arg(case), expiry=expiry)
     if case.get('second_cookie'):
         # a second, independent signed cookie whose name merely BEGINS with the first one's name; the endpoint writes it on
@@ -206,6 +206,10 @@ def impl(case):
     import secure_cookie.cookie as sc
     import clastic.middleware.cookie as cm
     set_keys(case)
+    import os
+    import time as _time
+    os.environ['TZ'] = case.get('tz') or 'UTC'        # the server's time zone is a deployment choice, not the cookie's business
+    _time.tzset()
     app, state, cname = build(case)
     keys = None
     if case.get('secret') == 'default':
@@ -234,6 +238,7 @@ def impl(case):
                 # the value the server issued for its OTHER signed cookie, presented under this cookie's name
                 sent = bytes(jar2[1:-1], 'latin-1').decode('unicode_escape') if jar2.startswith('"') else jar2
             state['ops'] = step['ops']
+            state['status'] = step.get('status')      # the endpoint's own answer may be an error page: the cookie is stored all the same
             state['now'] = clock['now']
             env = wsgi.environ('/')
             cookies = []
@@ -256,7 +261,7 @@ def impl(case):
                     if val.startswith('"'):
                         new = bytes(val[1:-1], 'latin-1').decode('unicode_escape')
             try:
-                given = json.loads(r.body.decode('utf8')) if r.code == 200 else None
+                given = json.loads(r.body.decode('utf8')) if r.code == (step.get('status') or 200) else None
             except Exception:
                 given = None
             second = None
@@ -280,7 +285,7 @@ def oracle(case, obs):
         what = 'request %d (tamper %s, clock %s)' % (n, step['tamper'], o['now'])
         if o['exc']:
             return ('%s: %s escaped for cookie %r' % (what, o['exc'], o['sent']), 'escape')
-        if o['status'] != 200:
+        if o['status'] != (step.get('status') or 200):
             return ('%s: status %s for cookie %r' % (what, o['status'], o['sent']), 'error-response')
         _, verdict = classify(o['sent'], None)
         want = {}
@@ -378,8 +383,10 @@ def gen_case(rng, tier):
                 ops.append(['clear'])
         adv = rng.choice([0, 1, 1, 10, 49, 50, 51, 99, 100, 101, 500])
         steps.append({'ops': ops, 'advance': adv, 'tamper': rng.choice(TAMPER + ['cross_name'])})
+        if rng.random() < 0.15:
+            steps[-1]['status'] = rng.choice([503, 502, 500, 404, 302])
     return {'second_cookie': rng.random() < 0.3, 'secret': rng.choice(['bytes', 'bytes', 'text', 'nonascii', 'default']), 'expiry': ex, 'steps': steps, 'seed': rng.randrange(10 ** 6), 'arg_name': rng.choice(['cookie', 'session', 'sess_1']),
-            'cookie_name': rng.choice([None, 'sid', 'my-cookie'])}
+            'cookie_name': rng.choice([None, 'sid', 'my-cookie']), 'tz': rng.choice(['UTC', 'UTC', 'EST5', 'XYZ-9', 'ABC+11', 'IST-5:30'])}
 
 
 def shrink(case):
